@@ -298,4 +298,8 @@ def check(model, rep, tier):
         if f is not None:
             forwarded_parameter_obligations(model, rep, f, "output_shape", callees, "1 reducers")
     rep.floor("FWDP", 8, "(output_shape handed from the averaging entry points to the stack builders)")
+    # the per-tomogram loaders a batch averages over are rebuilt with every setting of the batch (order, scale, output_shape, corner_safe)
+    from .generic import rebuild_ctor_obligations, functions_in
+    rebuild_ctor_obligations(model, rep, functions_in(model, ["acryo/loader/_batch.py"]), "1 reducers")
+    rep.floor("CTOR", 2, "(LoaderAccessor rebuilds per-tomogram loaders from the batch loader)")
 
